@@ -511,6 +511,15 @@ impl Runner {
     fn check_readers(&mut self, what: &str, out: &mut Vec<Violation>) {
         for (i, (tx, want, id)) in self.readers.iter().enumerate() {
             self.stats.reader_checks += 1;
+            // the reader tries to modify what it sees: refused, and (dump below) without effect
+            match real::reader_mutator_attempts(tx, want) {
+                Ok(bad) => {
+                    for b in bad {
+                        out.push(Violation::new("reader_mutator_not_refused", format!("{}: reader #{} (opened as {}): {} returned Ok in a read-only transaction", what, i, id, b)));
+                    }
+                }
+                Err(p) => out.push(Violation::new(panic_class("reader_panic", &p), format!("{}: reader #{}: a mutator called in a read-only transaction panicked: {}", what, i, p))),
+            }
             match real::dump_tx(tx) {
                 Ok(d) => {
                     if let Some(diff) = d.diff(want) {
